@@ -3,7 +3,9 @@ import json
 def to_plan(behaviours):
     out = []
     for b in behaviours:
-        out.append("B")
+        # single calls start from a generic state (every register a generic rotation with non-zero linear part, so that a
+        # wrong read of an aliased operand cannot be masked by a zero); longer histories start from random strata
+        out.append("B g" if len(b) == 1 else "B")
         for s in b:
             out.append("S %s %s %s %s %d %d %s %s %s" % (s["op"], s["dst"], s["a"], s["b"], s["mask"], s["res"],
                        ",".join(map(str, s["ids"])) or "-", ",".join(map(str, s["post"]["g"])), ",".join(map(str, s["post"]["t"]))))
